@@ -173,7 +173,7 @@ class C07(Prop):
                    'same-object configuration uses re-iterable sources and stateless steps, so only the checkpoint machinery carries state between runs']
     REAL_VS_STUB = {'real': ['dataflows Flow / checkpoint / stream / unstream / extended_json', 'the file system'], 'stub': ['process environment: TZ set per run; fork per RUN in the fresh configuration']}
     PROBES = ['negative-utc-offset', 'sub-hour-offset', 'duration-value', 'time-value', 'nested-object', 'high-precision-decimal', 'tz-changed-between-runs', 'same-object-config',
-              'fresh-config', 'delete-middle-checkpoint', 'resume-after-delete-all', 'three-checkpoints', 'empty-resource', 'mutating-step-after-checkpoint', 'year-below-1000']
+              'fresh-config', 'delete-middle-checkpoint', 'resume-after-delete-all', 'three-checkpoints', 'empty-resource', 'mutating-step-after-checkpoint', 'year-below-1000', 'zero-column-rows']
     TIERS = {'quick': dict(runs=500, wall=100, run_wall=120),
              'thorough': dict(runs=12000, wall=1700, run_wall=300)}
     SHRINK_FROZEN = ('fields',)
@@ -185,14 +185,19 @@ class C07(Prop):
             n = rng.choice([0, 1, 2, 3, 5, 8])
             tabs.append(gen_typed_table(rng, 'res_%d' % (i + 1), n, idc))
             idc += n + 1
+        if rng.random() < 0.1:
+            # a table whose rows carry no columns at all ({} rows): legal, and easily mistaken for an end-of-resource marker
+            tabs.insert(rng.randrange(len(tabs) + 1), {'name': 'x', 'fields': [], 'rows': [[] for _ in range(rng.choice([1, 2, 3]))]})
+            for i, t in enumerate(tabs):
+                t['name'] = 'res_%d' % (i + 1)
         ncp = rng.choice([1, 1, 2, 2, 3])
         links = []
         for i in range(ncp):
             if rng.random() < 0.7:
-                links.append(rng.choice(['s%d', 'm%d']) % i)
+                links.append(rng.choice(['s%d', 'm%d'] if all(t['fields'] for t in tabs) else ['s%d']) % i)
             links.append('cp:' + 'abc'[i])
         if rng.random() < 0.6:
-            links.append(rng.choice(['tail', 'mtail']))
+            links.append(rng.choice(['tail', 'mtail']) if all(t['fields'] for t in tabs) else 'tail')
         names = ['abc'[i] for i in range(ncp)]
         ops = [{'op': 'run'}]
         for _ in range(rng.choice([2, 3, 4, 6])):
@@ -299,6 +304,8 @@ class C07(Prop):
             elif ln.startswith('m') and seen_cp:
                 ctx.probe('mutating-step-after-checkpoint')
         for t in spec['tables']:
+            if not t['fields'] and t['rows']:
+                ctx.probe('zero-column-rows')
             if not t['rows']:
                 ctx.probe('empty-resource')
             for row in t['rows']:
